@@ -88,6 +88,11 @@ func (bucket *Bucket) _closeSqliteDB() {
 
 // Closes a bucket and deletes its directory and files (unless it's in-memory.)
 func (bucket *Bucket) CloseAndDelete(ctx context.Context) (err error) {
+	// A running expiry sweep holds the expiry manager's lock and takes the bucket's lock for every document it
+	// removes, so it has to be waited for before the bucket's lock is taken, not (in _closeSqliteDB) after.
+	bucket.storeClosed.Store(true)
+	bucket.expManager.stop()
+
 	bucket.mutex.Lock()
 	defer bucket.mutex.Unlock()
 	bucket._closeSqliteDB()
